@@ -69,7 +69,10 @@ type Exec struct {
 	assuming     bool
 	nref         int
 	openCaptured bool
+	litDepth     int
+	nlit, nlitVerified int
 	litPos       token.Pos
+	inlineLitPos token.Pos
 }
 
 func (x *Exec) noteAssume(s string) {
@@ -158,6 +161,9 @@ func isUnsigned(t *types.Basic) bool { return t.Info()&types.IsUnsigned != 0 }
 
 func (x *Exec) sortOf(t types.Type) Sort {
 	if t == nil {
+		return SInt
+	}
+	if n, ok := t.(*types.Named); ok && n.Obj().Pkg() != nil && n.Obj().Pkg().Path() == "reflect" && n.Obj().Name() == "Kind" {
 		return SInt
 	}
 	switch u := t.Underlying().(type) {
@@ -706,6 +712,18 @@ func (x *Exec) evalIdent(e *ast.Ident, st *State) (Value, types.Type) {
 			}
 			return v, t
 		}
+		// inside a literal verified in place, names denote what is in scope at the literal
+		if x.litDepth > 0 || x.inlineLitPos.IsValid() {
+			if sc := x.pkg.Types.Scope().Innermost(x.inlineLitPos); sc != nil && x.inlineLitPos.IsValid() {
+				if _, o := sc.LookupParent(e.Name, x.inlineLitPos); o != nil {
+					if _, isVar := o.(*types.Var); isVar {
+						if v, ok := st.env[o]; ok {
+							return v, o.Type()
+						}
+					}
+				}
+			}
+		}
 		if o := x.conScope[e.Name]; o != nil {
 			if v, ok := st.env[o]; ok {
 				return v, o.Type()
@@ -1048,12 +1066,14 @@ func (x *Exec) evalBinary(e *ast.BinaryExpr, st *State) (Value, types.Type) {
 		return Term{"(* " + l.S + " " + r.S + ")", SInt}, rtyp
 	case token.QUO:
 		x.safety(st, "div-zero", e, "(not (= "+r.S+" 0))")
+		x.divPanic(st, r)
 		if x.mode == "wrap" {
 			return x.wrap(x.uf("tdivZ", SInt, l, r), rtyp), rtyp
 		}
 		return Term{"(tdiv " + l.S + " " + r.S + ")", SInt}, rtyp
 	case token.REM:
 		x.safety(st, "div-zero", e, "(not (= "+r.S+" 0))")
+		x.divPanic(st, r)
 		if x.mode == "wrap" {
 			return x.wrap(x.uf("tmodZ", SInt, l, r), rtyp), rtyp
 		}
@@ -1061,6 +1081,15 @@ func (x *Exec) evalBinary(e *ast.BinaryExpr, st *State) (Value, types.Type) {
 	}
 	engineFail("operator %s on integers needs ints bv (%s)", e.Op, types.ExprString(e))
 	return nil, nil
+}
+
+// divPanic: inside a run-time literal an integer division panics exactly when the divisor is zero;
+// the statement forks on that condition.
+func (x *Exec) divPanic(st *State, divisor Term) {
+	if x.litDepth == 0 || x.contract {
+		return
+	}
+	st.names["$pendingPanicCond"] = "(= " + divisor.S + " " + zeroOf(divisor.Sort).S + ")"
 }
 
 func typeBasic(ts ...types.Type) (*types.Basic, bool) {
@@ -1139,6 +1168,7 @@ func (x *Exec) bvBinary(e *ast.BinaryExpr, st *State, l, r Term, lt, rt, rtyp ty
 		return Term{"(bvand " + l.S + " (bvnot " + r.S + "))", l.Sort}
 	case token.QUO, token.REM:
 		x.safety(st, "div-zero", e, "(not (= "+r.S+" "+zeroOf(r.Sort).S+"))")
+		x.divPanic(st, r)
 		op := map[bool]map[token.Token]string{true: {token.QUO: "bvudiv", token.REM: "bvurem"}, false: {token.QUO: "bvsdiv", token.REM: "bvsrem"}}[uns][e.Op]
 		return Term{"(" + op + " " + l.S + " " + r.S + ")", l.Sort}
 	case token.SHL, token.SHR:
@@ -1188,10 +1218,25 @@ func (x *Exec) structEq(st *State, t types.Type, a, b Term) string {
 	return and(cs...)
 }
 
+// asIndex: slice/array indices and lengths are mathematical integers in every mode.
+func asIndex(t Term) Term {
+	if !t.Sort.isBV() {
+		return t
+	}
+	var n, w int
+	if _, err := fmt.Sscanf(t.S, "(_ bv%d %d)", &n, &w); err == nil {
+		return intLit(int64(n))
+	}
+	return Term{"(bv2nat " + t.S + ")", SInt}
+}
+
 func (x *Exec) evalIndex(e *ast.IndexExpr, st *State) (Value, types.Type) {
 	xv, xt := x.eval(e.X, st)
 	iv, _ := x.eval(e.Index, st)
 	base, idx := asTerm(xv), asTerm(iv)
+	if _, isMap := xt.Underlying().(*types.Map); !isMap {
+		idx = asIndex(idx)
+	}
 	if xt == nil {
 		engineFail("index of untyped value %s", types.ExprString(e))
 	}
